@@ -67,7 +67,7 @@ Pointer(op, ptr) ==
 (* three-valued: "T", "F", "U" (U: the property text does not decide, e.g. `!=` on a pointer that does not resolve) *)
 AtomVerdict(a, op) ==
   LET vals == Values(op, a.by) IN
-  CASE a.how = "value"  -> IF \E x \in vals : x = Norm(a.by, a.v) THEN "T" ELSE "F"
+  CASE a.how \in {"value", "func"} -> IF \E x \in vals : x = Norm(a.by, a.v) THEN "T" ELSE "F"   \* func: a user function deciding the same
     [] a.how = "list"   -> IF \E x \in vals : \E i \in 1..Len(a.vs) : x = Norm(a.by, a.vs[i]) THEN "T" ELSE "F"
     [] a.how = "prefix" -> IF \E x \in vals : IsPrefix(a.v, x) THEN "T" ELSE "F"
     [] a.how = "suffix" -> IF \E x \in vals : IsSuffix(a.v, x) THEN "T" ELSE "F"
